@@ -14,7 +14,7 @@ from sa.report import Ctx                   # noqa: E402
 
 
 def run_property(prop, repo_root, tier, seed=0, only_rule=None, verbose=False, overlay=None, quiet=False,
-                 write=True):
+                 write=True, extra=None):
     """Returns (exit code, ctx)."""
     repo = Repo(repo_root, overlay=overlay)
     ctx = Ctx(prop, repo, tier=tier, seed=seed, only_rule=only_rule, verbose=verbose, quiet=quiet)
@@ -24,6 +24,8 @@ def run_property(prop, repo_root, tier, seed=0, only_rule=None, verbose=False, o
         raise AnalysisError('; '.join(ctx.floor_failures))
     if not write:
         return (1 if ctx.violations else 0), ctx
+    if extra:
+        ctx.extra.update(extra)
     code = ctx.finish(explanation, trusted_base=getattr(mod, 'TRUSTED', None))
     return code, ctx
 
@@ -62,16 +64,21 @@ def main(argv):
                 print('VIOLATION property=%s replay=- rule=%s instance=%s\n  %s\n  %s' % (prop, v['rule'], v['key'], v['site'], v['msg'][:300]))
             print('%s [dry]: %d new violation(s), %d known' % (prop, len(new), len(matched)))
             return 1 if new else 0
-        code, ctx = run_property(prop, a.repo, tier, seed, only, verbose)
-        if tier == 'thorough' and not a.replay and code == 0:
+        extra = None
+        st = None
+        if tier == 'thorough' and not a.replay:
             from sa import selftest
             st = selftest.run_for(prop, a.repo)
             if st is not None:
-                print(st['summary'])
-                if st['failed']:
-                    for l in st['failed']:
-                        print('ANALYSIS-ERROR property=%s self-test: %s' % (prop, l))
-                    return 2
+                extra = {'selftest': {'summary': st['summary'], 'counts': st['counts'],
+                                      'results': [{'name': n, 'status': s_, 'detail': d[:160]} for n, s_, d in st['results']]}}
+        code, ctx = run_property(prop, a.repo, tier, seed, only, verbose, extra=extra)
+        if st is not None:
+            print(st['summary'])
+            if st['failed'] and code == 0:
+                for l in st['failed']:
+                    print('ANALYSIS-ERROR property=%s self-test: %s' % (prop, l))
+                return 2
         return code
     except AnalysisError as e:
         print('ANALYSIS-ERROR property=%s %s' % (prop, e))
